@@ -28,6 +28,69 @@ pub fn diags_json(d: &DiagnosticList, src_len: usize) -> J {
     )
 }
 
+/// TargetValue wrapper that logs every Target operation and rejects the operations the fault
+/// schedule marks (n-th operation fails iff faults[n]; the runtime's own root read is operation 0).
+#[derive(Debug)]
+struct LogTarget {
+    inner: TargetValue,
+    log: std::cell::RefCell<Vec<J>>,
+    faults: Vec<bool>,
+    /// false: a marked operation returns Err; true: it pretends success without doing anything
+    /// (a read sees "missing") - the reference behaviour C17 states for rejected operations
+    skip: bool,
+    n: std::cell::Cell<usize>,
+}
+
+impl LogTarget {
+    fn next_bad(&self) -> bool {
+        let i = self.n.get();
+        self.n.set(i + 1);
+        self.faults.get(i).copied().unwrap_or(false)
+    }
+    fn note(&self, op: &str, p: &vrl::path::OwnedTargetPath, compact: Option<bool>) {
+        let pfx = match p.prefix { vrl::path::PathPrefix::Event => "event", vrl::path::PathPrefix::Metadata => "meta" };
+        self.log.borrow_mut().push(json!({"op": op, "pfx": pfx, "path": path_to_json(&p.path), "compact": compact}));
+    }
+}
+
+impl vrl::compiler::Target for LogTarget {
+    fn target_insert(&mut self, p: &vrl::path::OwnedTargetPath, v: Value) -> Result<(), String> {
+        self.note("ins", p, None);
+        if self.next_bad() { return if self.skip { Ok(()) } else { Err("injected fault".into()) }; }
+        self.inner.target_insert(p, v)
+    }
+    fn target_get(&self, p: &vrl::path::OwnedTargetPath) -> Result<Option<&Value>, String> {
+        self.note("get", p, None);
+        if self.next_bad() { return if self.skip { Ok(None) } else { Err("injected fault".into()) }; }
+        self.inner.target_get(p)
+    }
+    fn target_get_mut(&mut self, p: &vrl::path::OwnedTargetPath) -> Result<Option<&mut Value>, String> {
+        self.note("getmut", p, None);
+        if self.next_bad() { return if self.skip { Ok(None) } else { Err("injected fault".into()) }; }
+        self.inner.target_get_mut(p)
+    }
+    fn target_remove(&mut self, p: &vrl::path::OwnedTargetPath, compact: bool) -> Result<Option<Value>, String> {
+        self.note("rem", p, Some(compact));
+        if self.next_bad() { return if self.skip { Ok(None) } else { Err("injected fault".into()) }; }
+        self.inner.target_remove(p, compact)
+    }
+}
+
+impl vrl::compiler::SecretTarget for LogTarget {
+    fn get_secret(&self, key: &str) -> Option<&str> { self.inner.get_secret(key) }
+    fn insert_secret(&mut self, key: &str, value: &str) { self.inner.insert_secret(key, value) }
+    fn remove_secret(&mut self, key: &str) { self.inner.remove_secret(key) }
+}
+
+fn tp_json(p: &vrl::path::OwnedTargetPath) -> J {
+    let pfx = match p.prefix { vrl::path::PathPrefix::Event => "event", vrl::path::PathPrefix::Metadata => "meta" };
+    json!({"pfx": pfx, "path": path_to_json(&p.path), "text": p.to_string()})
+}
+
+fn faults_of(case: &J) -> Vec<bool> {
+    case.get("faults").and_then(|f| f.as_array()).map(|a| a.iter().map(|b| b.as_bool().unwrap_or(false)).collect()).unwrap_or_default()
+}
+
 fn tz_of(case: &J) -> TimeZone {
     match case.get("tz").and_then(|t| t.as_str()) {
         None | Some("UTC") => TimeZone::Named(chrono_tz::UTC),
@@ -72,13 +135,19 @@ pub fn run(case: &J) -> J {
     let event = from_json(&case["event"]);
     let meta = case.get("meta").map(from_json).unwrap_or_else(|| Value::Object(BTreeMap::new()));
 
+    let skip = case.get("fault_mode").and_then(|m| m.as_str()) == Some("skip");
     // official run through Runtime::resolve
-    let mut target = TargetValue { value: event.clone(), metadata: meta.clone(), secrets: Secrets::new() };
+    let mut ltarget = LogTarget { inner: TargetValue { value: event.clone(), metadata: meta.clone(), secrets: Secrets::new() },
+                                  log: Default::default(), faults: faults_of(case), skip, n: Default::default() };
     let mut runtime = Runtime::default();
-    let r1 = runtime.resolve(&mut target, &program, &tz);
+    let r1 = runtime.resolve(&mut ltarget, &program, &tz);
+    let mut log = ltarget.log.into_inner();
+    if !log.is_empty() { log.remove(0); }   // the runtime's own root read
+    let target = ltarget.inner;
 
     // second run on a state we can inspect afterwards (same mapping as Runtime::resolve)
-    let mut target2 = TargetValue { value: event, metadata: meta, secrets: Secrets::new() };
+    let mut target2 = LogTarget { inner: TargetValue { value: event, metadata: meta, secrets: Secrets::new() },
+                                  log: Default::default(), faults: { let mut f = faults_of(case); if !f.is_empty() { f.remove(0); } f }, skip, n: Default::default() };
     let mut rstate = RuntimeState::default();
     let r2 = {
         let mut ctx = Context::new(&mut target2, &mut rstate, &tz);
@@ -88,22 +157,26 @@ pub fn run(case: &J) -> J {
             Err(err @ ExpressionError::Error { .. }) => Err(Terminate::Error(err)),
         }
     };
+    let root_rejected = faults_of(case).first().copied().unwrap_or(false);
     let mut vars = serde_json::Map::new();
     if let Some(names) = case.get("vars").and_then(|v| v.as_array()) {
         for n in names {
             let n = n.as_str().unwrap();
-            vars.insert(n.to_string(), opt_to_json(rstate.variable(&vrl::parser::ast::Ident::new(n))));
+            // when the runtime's root read is rejected nothing runs: no variable is ever set
+            let v = if root_rejected { None } else { rstate.variable(&vrl::parser::ast::Ident::new(n)) };
+            vars.insert(n.to_string(), opt_to_json(v));
         }
     }
     let info = program.info();
     let o1 = outcome(r1);
     let o2 = outcome(r2);
     json!({"compile": "ok", "warnings": diags_json(&res.warnings, src.len()),
-           "result": o1, "consistent": o1 == o2 && target.value == target2.value && target.metadata == target2.metadata,
+           "result": o1, "consistent": faults_of(case).first().copied().unwrap_or(false) || (o1 == o2 && target.value == target2.inner.value && target.metadata == target2.inner.metadata),
+           "log": log,
            "event": to_json(&target.value), "meta": to_json(&target.metadata), "vars": J::Object(vars),
            "info": {"fallible": info.fallible, "abortable": info.abortable,
-                    "queries": info.target_queries.iter().map(|p| p.to_string()).collect::<Vec<_>>(),
-                    "assignments": info.target_assignments.iter().map(|p| p.to_string()).collect::<Vec<_>>()}})
+                    "queries": info.target_queries.iter().map(tp_json).collect::<Vec<_>>(),
+                    "assignments": info.target_assignments.iter().map(tp_json).collect::<Vec<_>>()}})
 }
 
 fn main() {
